@@ -19,7 +19,7 @@ params:
              "K": tick of a client cancel() or None, "CD": ticks the delegate future's cancel() takes before refusing (manual), "mfail": map / flat_map fn raises, "polls": polls needed}]
   comb     [{"op": "zip" | "or" | "and" | "map", "ins": [job numbers (1-based)], "at": tick, "K": cancel tick}]
   snaps    ticks at which the main thread waits for quiescence and snapshots the registry
-  shutdown [{"st": stack, "at": tick, "wait": bool}]
+  shutdown [{"st": stack, "at": tick, "wait": bool, "threads": n (default 1: that many threads call it at once)}]
   horizon  tick of the final shutdown of everything + final snapshot
   share_names  bool: executors at the same position of different stacks carry the same name (one metric label)
 """
@@ -442,7 +442,17 @@ def build(p):
             if t >= horizon:
                 continue
             E.vsleep(max(t - E.now(), 0))
-            if sd is not None:
+            if sd is not None and sd.get("threads", 1) > 1:
+                # several threads call shutdown() of the same stack at the same instant
+                if sd["st"] not in down:
+                    down.add(sd["st"])
+                    E.emit("ShutdownCall", f=sd["st"], a=1 if sd.get("wait", True) else 0)
+                    ths = [E.spawn("shut%d_%d" % (sd["st"], n), tops[sd["st"]].shutdown, bool(sd.get("wait", True)))
+                           for n in range(sd["threads"])]
+                    for t in ths:
+                        t.join()
+                    E.emit("ShutdownRet", f=sd["st"])
+            elif sd is not None:
                 shut(sd["st"], bool(sd.get("wait", True)))
             E.settle()
             _snapshot(ctx, PC, False, uses_fmap)
